@@ -92,20 +92,54 @@ pub enum VaultAsset {
 #[derive(Clone, Debug, Serialize, Deserialize)]
 pub enum Op {
     CreatePair { which: u8, fees: [Uint128; 3], stable_amp: Option<u64> },
-    UpdatePair { sel: u16, fees: [Uint128; 3] },
+    UpdatePair {
+        sel: u16,
+        fees: [Uint128; 3],
+        /// other (harmless) fields carried by the same message: bit 0 switches (all on / all off by bit 1), bit 2 collector address
+        #[serde(default)]
+        companions: u8,
+    },
     InstantiatePairDirect { fees: [Uint128; 3] },
     CreateTrio { which: u8, fees: [Uint128; 3], amp: u64 },
-    UpdateTrio { sel: u16, fees: Option<[Uint128; 3]>, ramp: Option<(u64, u64)> },
+    UpdateTrio {
+        sel: u16,
+        fees: Option<[Uint128; 3]>,
+        ramp: Option<(u64, u64)>,
+        #[serde(default)]
+        companions: u8,
+    },
     InstantiateTrioDirect { fees: [Uint128; 3], amp: u64 },
     CreateVault { asset: VaultAsset, fees: [Uint128; 3] },
-    UpdateVault { sel: u16, fees: [Uint128; 3] },
+    UpdateVault {
+        sel: u16,
+        fees: [Uint128; 3],
+        /// bit 0 flash-loan switch, bit 1 its value, bit 2 collector address
+        #[serde(default)]
+        companions: u8,
+    },
     InstantiateVaultDirect { asset: VaultAsset, fees: [Uint128; 3] },
     InstantiateDistributor { grace: u64, duration_ns: u64 },
     UpdateDistributor { sel: u16, grace: Option<u64>, duration_ns: Option<u64> },
     InstantiateLair { growth: Uint128, n_assets: u8, with_cw20: bool },
-    UpdateLair { sel: u16, growth: Uint128 },
-    UpdateCollector { take_rate: Uint128 },
+    UpdateLair {
+        sel: u16,
+        growth: Uint128,
+        /// bit 0 unbonding period, bit 1 fee distributor address
+        #[serde(default)]
+        companions: u8,
+    },
+    UpdateCollector {
+        take_rate: Uint128,
+        /// bit 0 is_take_rate_active given, bit 1 its value, bit 2 DAO address given
+        #[serde(default)]
+        companions: u8,
+    },
     AdvanceBlocks { n: u32 },
+}
+
+/// which other fields accompany the bounded field in the same message
+fn comp() -> BoxedStrategy<u8> {
+    prop_oneof![2 => Just(0u8), 3 => 0u8..8].boxed()
 }
 
 fn amp_any() -> BoxedStrategy<u64> {
@@ -133,20 +167,20 @@ fn vasset() -> BoxedStrategy<VaultAsset> {
 fn op() -> BoxedStrategy<Op> {
     prop_oneof![
         4 => (0u8..6, boundary_triple(), proptest::option::weighted(0.3, amp_any())).prop_map(|(which, fees, stable_amp)| Op::CreatePair { which, fees, stable_amp }),
-        5 => (any::<u16>(), boundary_triple()).prop_map(|(sel, fees)| Op::UpdatePair { sel, fees }),
+        5 => (any::<u16>(), boundary_triple(), comp()).prop_map(|(sel, fees, companions)| Op::UpdatePair { sel, fees, companions }),
         2 => boundary_triple().prop_map(|fees| Op::InstantiatePairDirect { fees }),
         3 => (0u8..4, boundary_triple(), amp_any()).prop_map(|(which, fees, amp)| Op::CreateTrio { which, fees, amp }),
         5 => (any::<u16>(), proptest::option::of(boundary_triple()), proptest::option::of((amp_any(), prop_oneof![Just(0u64), Just(9_999), Just(10_000), Just(10_001), 0u64..30_000])))
-            .prop_map(|(sel, fees, ramp)| Op::UpdateTrio { sel, fees, ramp }),
+            .prop_map(|(sel, fees, ramp)| Op::UpdateTrio { sel, fees, ramp, companions: ((sel >> 3) as u8) & if sel & 1 == 0 { 0 } else { 7 } }),
         2 => (boundary_triple(), amp_any()).prop_map(|(fees, amp)| Op::InstantiateTrioDirect { fees, amp }),
         4 => (vasset(), boundary_triple()).prop_map(|(asset, fees)| Op::CreateVault { asset, fees }),
-        6 => (any::<u16>(), boundary_triple()).prop_map(|(sel, fees)| Op::UpdateVault { sel, fees }),
+        6 => (any::<u16>(), boundary_triple(), comp()).prop_map(|(sel, fees, companions)| Op::UpdateVault { sel, fees, companions }),
         2 => (vasset(), boundary_triple()).prop_map(|(asset, fees)| Op::InstantiateVaultDirect { asset, fees }),
         3 => (grace_any(), duration_any()).prop_map(|(grace, duration_ns)| Op::InstantiateDistributor { grace, duration_ns }),
         5 => (any::<u16>(), proptest::option::of(grace_any()), proptest::option::of(duration_any())).prop_map(|(sel, grace, duration_ns)| Op::UpdateDistributor { sel, grace, duration_ns }),
         3 => (growth_any(), 0u8..4, any::<bool>()).prop_map(|(growth, n_assets, with_cw20)| Op::InstantiateLair { growth, n_assets, with_cw20 }),
-        4 => (any::<u16>(), growth_any()).prop_map(|(sel, growth)| Op::UpdateLair { sel, growth }),
-        4 => growth_any().prop_map(|take_rate| Op::UpdateCollector { take_rate }),
+        4 => (any::<u16>(), growth_any(), comp()).prop_map(|(sel, growth, companions)| Op::UpdateLair { sel, growth, companions }),
+        4 => (growth_any(), comp()).prop_map(|(take_rate, companions)| Op::UpdateCollector { take_rate, companions }),
         2 => (1u32..25_000).prop_map(|n| Op::AdvanceBlocks { n }),
     ]
     .boxed()
@@ -270,7 +304,7 @@ impl Check for ConfigBounds {
         "config_bounds_history"
     }
     fn rule(&self) -> &'static str {
-        "random sequences (up to 40/120 steps) of instantiations and updates through every path that can write a bounded parameter: pair fees (factory CreatePair, factory UpdatePairConfig, direct instantiation of the pair code), trio fees and amplification (CreateTrio, UpdateTrioConfig incl. ramps with block advances, direct instantiation), vault fees over native / cw20 / token-factory assets (CreateVault, UpdateVaultConfig, direct instantiation), distributor grace period and epoch duration (instantiate, UpdateConfig), lair growth rate and bonding assets (instantiate with 0..3 assets incl. a cw20, UpdateConfig), collector take rate (UpdateConfig); fee triples and scalars are drawn on, just inside and just outside every bound at 18-decimal granularity (single share = 1 -/+ 1e-18, sums = 1 -/+ 1e-18, grace 0/1/30/31, duration 1 day -/+ 1 ns, amp 0/1/10^6/10^6+1, growth and take rate 1 -/+ 1e-18). After every step the Config of every contract created so far is read back and checked against the documented bounds (incl. grace never decreasing, no burn fee on token-factory vaults); a rejected step leaves the world snapshot unchanged. Non-trivial: >= 1 accepted and >= 1 rejected write of a bounded parameter."
+        "random sequences (up to 40/120 steps) of instantiations and updates through every path that can write a bounded parameter — the bounded field alone or accompanied in the same message by the other optional fields of that message (switches, collector / DAO address, take-rate switch, unbonding period): pair fees (factory CreatePair, factory UpdatePairConfig, direct instantiation of the pair code), trio fees and amplification (CreateTrio, UpdateTrioConfig incl. ramps with block advances, direct instantiation), vault fees over native / cw20 / token-factory assets (CreateVault, UpdateVaultConfig, direct instantiation), distributor grace period and epoch duration (instantiate, UpdateConfig), lair growth rate and bonding assets (instantiate with 0..3 assets incl. a cw20, UpdateConfig), collector take rate (UpdateConfig); fee triples and scalars are drawn on, just inside and just outside every bound at 18-decimal granularity (single share = 1 -/+ 1e-18, sums = 1 -/+ 1e-18, grace 0/1/30/31, duration 1 day -/+ 1 ns, amp 0/1/10^6/10^6+1, growth and take rate 1 -/+ 1e-18). After every step the Config of every contract created so far is read back and checked against the documented bounds (incl. grace never decreasing, no burn fee on token-factory vaults); a rejected step leaves the world snapshot unchanged. Non-trivial: >= 1 accepted and >= 1 rejected write of a bounded parameter."
     }
     fn strategy(&self, tier: Tier) -> BoxedStrategy<Case> {
         let max_ops = tier.pick(40usize, 120usize);
@@ -323,7 +357,9 @@ impl Check for ConfigBounds {
                         Err(_) => false,
                     }
                 }
-                Op::UpdatePair { sel, fees } => {
+                Op::UpdatePair { sel, fees, companions } => {
+                    let tog = if companions & 1 != 0 { let v = companions & 2 == 0; Some(pair::FeatureToggle { withdrawals_enabled: v, deposits_enabled: v, swaps_enabled: v }) } else { None };
+                    let ca = if companions & 4 != 0 { Some(col.to_string()) } else { None };
                     if h.pairs.is_empty() {
                         continue;
                     }
@@ -335,12 +371,12 @@ impl Check for ConfigBounds {
                         h.w.exec(
                             &owner,
                             &f,
-                            &factory::ExecuteMsg::UpdatePairConfig { pair_addr: p.to_string(), owner: None, fee_collector_addr: None, pool_fees: Some(pfee(fees)), feature_toggle: None },
+                            &factory::ExecuteMsg::UpdatePairConfig { pair_addr: p.to_string(), owner: None, fee_collector_addr: ca.clone(), pool_fees: Some(pfee(fees)), feature_toggle: tog.clone() },
                             &[],
                         )
                         .is_ok()
                     } else {
-                        h.w.exec(&cfg.owner, &p, &pair::ExecuteMsg::UpdateConfig { owner: None, fee_collector_addr: None, pool_fees: Some(pfee(fees)), feature_toggle: None }, &[])
+                        h.w.exec(&cfg.owner, &p, &pair::ExecuteMsg::UpdateConfig { owner: None, fee_collector_addr: ca.clone(), pool_fees: Some(pfee(fees)), feature_toggle: tog.clone() }, &[])
                             .is_ok()
                     }
                 }
@@ -379,7 +415,9 @@ impl Check for ConfigBounds {
                         Err(_) => false,
                     }
                 }
-                Op::UpdateTrio { sel, fees, ramp } => {
+                Op::UpdateTrio { sel, fees, ramp, companions } => {
+                    let tog = if companions & 1 != 0 { let v = companions & 2 == 0; Some(trio::FeatureToggle { withdrawals_enabled: v, deposits_enabled: v, swaps_enabled: v }) } else { None };
+                    let ca = if companions & 4 != 0 { Some(col.to_string()) } else { None };
                     if h.trios.is_empty() {
                         continue;
                     }
@@ -392,12 +430,12 @@ impl Check for ConfigBounds {
                         h.w.exec(
                             &owner,
                             &f,
-                            &factory::ExecuteMsg::UpdateTrioConfig { trio_addr: t.to_string(), owner: None, fee_collector_addr: None, pool_fees: fees.as_ref().map(tfee), feature_toggle: None, amp_factor: r },
+                            &factory::ExecuteMsg::UpdateTrioConfig { trio_addr: t.to_string(), owner: None, fee_collector_addr: ca.clone(), pool_fees: fees.as_ref().map(tfee), feature_toggle: tog.clone(), amp_factor: r },
                             &[],
                         )
                         .is_ok()
                     } else {
-                        h.w.exec(&cfg.owner, &t, &trio::ExecuteMsg::UpdateConfig { owner: None, fee_collector_addr: None, pool_fees: fees.as_ref().map(tfee), feature_toggle: None, amp_factor: r }, &[])
+                        h.w.exec(&cfg.owner, &t, &trio::ExecuteMsg::UpdateConfig { owner: None, fee_collector_addr: ca.clone(), pool_fees: fees.as_ref().map(tfee), feature_toggle: tog.clone(), amp_factor: r }, &[])
                             .is_ok()
                     }
                 }
@@ -443,7 +481,7 @@ impl Check for ConfigBounds {
                         }
                     }
                 }
-                Op::UpdateVault { sel, fees } => {
+                Op::UpdateVault { sel, fees, companions } => {
                     if h.vaults.is_empty() {
                         continue;
                     }
@@ -451,12 +489,12 @@ impl Check for ConfigBounds {
                     let vf = h.w.vault_factory.clone().unwrap();
                     let cfg: vault::Config = h.w.query(&v, &vault::QueryMsg::Config {}).map_err(Fail::new)?;
                     let params = vault::UpdateConfigParams {
-                        flash_loan_enabled: None,
+                        flash_loan_enabled: if companions & 1 != 0 { Some(companions & 2 != 0) } else { None },
                         deposit_enabled: None,
                         withdraw_enabled: None,
                         new_owner: None,
                         new_vault_fees: Some(vfee(fees)),
-                        new_fee_collector_addr: None,
+                        new_fee_collector_addr: if companions & 4 != 0 { Some(col.to_string()) } else { None },
                     };
                     if matches!(&info, AssetInfo::NativeToken { denom } if denom.starts_with("factory/")) {
                         rec.class("token_factory_vault_fee_update_attempt");
@@ -562,15 +600,15 @@ impl Check for ConfigBounds {
                         Err(_) => false,
                     }
                 }
-                Op::UpdateLair { sel, growth } => {
+                Op::UpdateLair { sel, growth, companions } => {
                     if h.lairs.is_empty() {
                         continue;
                     }
                     let l = h.lairs[gen::idx(*sel, h.lairs.len())].clone();
-                    h.w.exec(&owner, &l, &lair::ExecuteMsg::UpdateConfig { owner: None, unbonding_period: None, growth_rate: Some(d(growth.u128())), fee_distributor_addr: None }, &[])
+                    h.w.exec(&owner, &l, &lair::ExecuteMsg::UpdateConfig { owner: None, unbonding_period: if companions & 1 != 0 { Some(Uint64::new(2_000_000_000)) } else { None }, growth_rate: Some(d(growth.u128())), fee_distributor_addr: if companions & 2 != 0 { Some("alice".to_string()) } else { None } }, &[])
                         .is_ok()
                 }
-                Op::UpdateCollector { take_rate } => h
+                Op::UpdateCollector { take_rate, companions } => h
                     .w
                     .exec(
                         &owner,
@@ -582,8 +620,8 @@ impl Check for ConfigBounds {
                             pool_factory: None,
                             vault_factory: None,
                             take_rate: Some(d(take_rate.u128())),
-                            take_rate_dao_address: None,
-                            is_take_rate_active: None,
+                            take_rate_dao_address: if companions & 4 != 0 { Some("alice".to_string()) } else { None },
+                            is_take_rate_active: if companions & 1 != 0 { Some(companions & 2 != 0) } else { None },
                         },
                         &[],
                     )
